@@ -30,6 +30,8 @@ META = {
                    'thorough': 'all tables <= 3x3, 3x4, 4x3, 4x4 x all concepts, all seed pairs'},
     'assumptions': ['seeds that are not members of the receiving lattice are out of scope'],
 }
+META['rule'] += (' BIGLAT: additionally the Boolean lattice of 16 384 concepts (contranominal scale 14) in the quick '
+                 'tier and those of 32 768 and 65 536 concepts in the thorough tier.')
 
 
 def _expected(view, seeds_sidx, up):
@@ -221,7 +223,7 @@ def run_bigseeds(concepts, case, spec):
 
 def cases(tier, seed, spec):
     yield from bigseed_cases(tier)
-    yield from gen.biglat(tier)
+    yield from gen.biglat(tier, quick_sizes=(14,))
     yield from gen.ctx_stream(tier, seed)
 
 
